@@ -1,5 +1,6 @@
 import AITB.Model.Proto
 import AITB.Model.CursorUtil
+import AITB.Model.FGCursor
 import AITB.Gen.Constants
 import AITB.Gen.C10Sites
 open AITB AITB.CursorUtil
@@ -100,6 +101,27 @@ def maxunaryOp : P String := do
   let v := v.failIf (!vals.isEmpty && !(vals.all (· ≤ val) && vals[idx]? == some val && (vals.take idx).all (· < val))) s!"max_element_unary not_first_maximum impl={idx}"
   return v.render
 
+/-- `fgstep n | pre (n neighbour lists) | add <vars> <isNew> / erase <a> | post (n lists) | live factors` :
+    one step of a FactorGraph history on the real graph vs `FGCursor.step` -/
+def fgstepOp : P String := do
+  let n ← P.nat; P.bar; let pre ← P.natss; P.bar
+  let kind ← P.tok
+  let (op, isNew, vars) ← (if kind == "add" then do
+      let vars ← P.nats; let isNew ← P.bool; pure (AITB.FGCursor.Op.add vars, isNew, vars)
+    else do let a ← P.nat; pure (AITB.FGCursor.Op.erase a, true, []))
+  P.bar; let post ← P.natss; P.bar; let live ← P.natss; P.eof
+  let nb : AITB.FGCursor.Nbrs := fun v => (pre[v]?).getD []
+  let v : Verdict := { tag := if kind == "add" && !isNew then "trivial" else s!"fg_{kind}" }
+  let m := if isNew then (AITB.FGCursor.step nb op).map (fun nb' => (List.range n).map nb') else some pre
+  let v := v.diffIf (m != some post) s!"FactorGraph.{kind} neighbours_differ_from_model impl={post} model={m}"
+  -- clauses on the implementation's own lists: sorted, irreflexive, symmetric; every pair of variables sharing a live factor is listed
+  let get := fun (u : Nat) => (post[u]?).getD []
+  let v := v.failIf (!(post.all AITB.FGCursor.strictSorted)) s!"FactorGraph.{kind} neighbours_not_sorted {post}"
+  let v := v.failIf ((List.range n).any (fun u => (get u).any (fun w => w == u || w ≥ n || !(get w).contains u))) s!"FactorGraph.{kind} neighbours_not_symmetric {post}"
+  let v := v.failIf (live.any (fun f => f.any (fun u => f.any (fun w => w != u && !(get u).contains w)))) s!"FactorGraph.{kind} neighbour_missing {post} live={live}"
+  let v := v.failIf (kind == "add" && !(live.contains vars)) s!"FactorGraph.add factor_not_registered {vars}"
+  return v.render
+
 def handle (toks : List String) : Option String :=
   match toks with
   | "subset" :: rest => P.run subsetOp rest
@@ -110,5 +132,6 @@ def handle (toks : List String) : Option String :=
   | "veccmp" :: rest => P.run veccmpOp rest
   | "veccmpq" :: rest => P.run veccmpqOp rest
   | "maxunary" :: rest => P.run maxunaryOp rest
+  | "fgstep" :: rest => P.run fgstepOp rest
   | _ => none
 end DrvC10Util
